@@ -45,7 +45,7 @@ class C17:
     rule = ("all 81 placements of {regular file, directory, nothing} of one name in four directories x search-path sequences "
             "(all sequences of length 0-2 and sampled ones of length 3-4 over the four directories, a missing directory, "
             "duplicates and a tilde-prefixed literal directory) x names (relative, sub/relative, absolute existing / missing "
-            "/ directory - each with a decoy regular file at <search dir>/<that absolute name> -, empty, ~, ~/x, ~root, ~root/x, ~bin/ls, ~nosuchuser/x, ~ + 300 bytes); every file carries a marker "
+            "/ directory - each with a decoy regular file at <search dir>/<that absolute name> -, empty, ~, ~/x, ~root, ~root/x, ~bin/ls, ~user/a/b, ~nosuchuser/x, ~ + 300 bytes, ./name, ../dir/name, dot files); every file carries a marker "
             "value; each case under two heap fill patterns. Oracle: file model (first directory in the order added that "
             "holds a regular file; absolute names bypass the list; tilde per passwd database, unknown user unchanged); "
             "cfg_parse(name) and include(name) load the same marker; both fills give identical answers. Non-trivial = >= 2 "
@@ -88,6 +88,10 @@ class C17:
                 s.add("mkfifo", hx(os.path.join(root, "d1", "fifo.conf")))            # neither a regular file nor a directory
                 s.add("mkfile", hx(os.path.join(root, "d3", "fifo.conf")), hx("marker = 77\n"))
                 s.add("mkdir", hx(os.path.join(root, "abs_dir")))
+                # a dot file in one search directory only, with a decoy of the same name in the working directory
+                s.add("mkfile", hx(os.path.join(root, "d2", ".dot.conf")), hx("marker = 30\n"))
+                s.add("mkfile", hx(os.path.join(root, ".dot.conf")), hx("marker = 31\n"))
+                s.add("mkfile", hx(os.path.join(root, TARGET)), hx("marker = 32\n"))      # decoy: the working directory is not searched
                 # decoys: the absolute missing / directory names replicated below search directories (an absolute name bypasses the list)
                 for d in ("d1", "d3"):
                     for nm_ in ("abs_missing.conf", "abs_dir"):
@@ -105,7 +109,7 @@ class C17:
                 for name in sub["names"]:
                     if ("fifo" in name or name == "/dev/null") and not sub["path"]:
                         continue        # without a search path the name is opened as it is: a FIFO would block (no property about that)
-                    nm = name.replace("@ROOT@", root)
+                    nm = name.replace("@ROOT@", root).replace("@BASE@", os.path.basename(root))
                     e = {"name": nm}
                     e["find"] = s.add("findfile", 1, hx(nm))
                     e["tilde"] = s.add("tilde", hx(nm))
@@ -152,7 +156,7 @@ class C17:
             for e0, e1 in zip(q0, q1):
                 total += 1
                 name = e0["name"]
-                rel = name.replace(root, "@ROOT@")
+                rel = name.replace(root, "@ROOT@").replace("/" + os.path.basename(root) + "/", "/@BASE@/")
                 # model
                 exp_find = None
                 if sub["path"]:
@@ -221,8 +225,9 @@ class C17:
                         a = {x: y for x, y in t0[e0[k]].items() if x not in ("i", "diag", "filename")}
                         b = {x: y for x, y in t1[e1[k]].items() if x not in ("i", "diag", "filename")}
                         if "v" in a and isinstance(a["v"], str):
-                            a["v"] = bytes.fromhex(a["v"]).decode("latin-1").replace(root, "")
-                            b["v"] = bytes.fromhex(b["v"]).decode("latin-1").replace(root1, "") if isinstance(b["v"], str) else b["v"]
+                            a["v"] = bytes.fromhex(a["v"]).decode("latin-1").replace(root, "").replace("/" + os.path.basename(root) + "/", "/@BASE@/")
+                            b["v"] = bytes.fromhex(b["v"]).decode("latin-1").replace(root1, "").replace("/" + os.path.basename(root1) + "/", "/@BASE@/") \
+                                if isinstance(b["v"], str) else b["v"]
                         if a != b:
                             sig, msg = "depends-on-heap-fill/%s" % k, "%s: %s differs between heap fill 0x00 and 0xA5: %r vs %r" % (ctx, k, a, b)
                             break
@@ -236,7 +241,8 @@ class C17:
 
     NAMES = [TARGET, "sub/" + TARGET, "@ROOT@/abs_exists.conf", "@ROOT@/abs_missing.conf", "@ROOT@/abs_dir", "@ROOT@/d2/" + TARGET, "",
              "~", "~/x", "~root", "~root/x", "~bin/ls", "~nosuchuser9/x", "~nosuchuser9/td/" + TARGET, "~" + "a" * 300, "~r", "~roo", "~rootx/y",
-             "nosuch.conf", ".", "d1", "d1/" + TARGET, "/dev/null", "fifo.conf", "@ROOT@/d1/fifo.conf"]
+             "nosuch.conf", ".", "d1", "d1/" + TARGET, "/dev/null", "fifo.conf", "@ROOT@/d1/fifo.conf",
+             "./" + TARGET, ".dot.conf", "../@BASE@/d2/" + TARGET, "sub/../" + TARGET, "~root/x/y", "~bin/a/b/c.conf", "~root//x", "~/x/y/z"]
 
     def run(self, r):
         placements = ["".join(p) for p in itertools.product("fdn", repeat=4)]
